@@ -55,3 +55,25 @@ func TestVerifWitness_D18(t *testing.T) {
 		t.Errorf("after Store(Shift(Row(f=1), n=1), g=9): Row(g=9) = %v, want %v", got, want)
 	}
 }
+
+// DQB1: Store(src, f=r) where src has no segment for a shard (source field has no fragment there) removed the
+// destination row's containers but returned before invalidating the row cache: the old row stayed readable.
+func TestVerifWitness_DQB1(t *testing.T) {
+	env := vq2Start()
+	defer env.Close()
+	m := &vq2Model{}
+	m.addField(&vq2Field{Name: "f", Kind: "set"})
+	m.addField(&vq2Field{Name: "g", Kind: "set"})
+	idx := vq2WitnessIndex(t, env, m, "Set(1, f=1)")
+	defer env.drop(idx)
+	if got, want := vq2WitnessCols(t, env, idx, "Row(f=1)"), []uint64{1}; !vq2EqU64(got, want) {
+		t.Fatalf("Row(f=1) = %v, want %v", got, want)
+	}
+	env.mustQuery1(t, idx, "Store(Row(g=7), f=1)") // g holds nothing: the source row is empty
+	if got := vq2WitnessCols(t, env, idx, "Row(f=1)"); len(got) != 0 {
+		t.Fatalf("after Store(Row(g=7), f=1) with empty g: Row(f=1) = %v, want [] (Store replaces the row)", got)
+	}
+	if got := env.mustQuery1(t, idx, "Count(Row(f=1))"); got != uint64(0) {
+		t.Fatalf("after Store of an empty row: Count(Row(f=1)) = %v, want 0", got)
+	}
+}
